@@ -31,9 +31,9 @@ def _universe(prng, kind, n):
     while len(out) < n:
         k = kind if kind != "mixed" else prng.choice(("edge", "int", "str"))
         if k == "edge":
-            e = [prng.randrange(6), prng.randrange(6)]
+            e = [prng.randrange(6 if n <= 8 else 40), prng.randrange(6 if n <= 8 else 40)]
         elif k == "int":
-            e = prng.randrange(-3, 12)
+            e = prng.randrange(-3, 12 if n <= 8 else 4 * n)
         else:
             e = prng.choice("abcdefgh") + prng.choice(["", "x", "-1"])
         if e not in out:
@@ -44,8 +44,12 @@ def _universe(prng, kind, n):
 def generate(prng, tier, index):
     n = prng.randrange(1, 9)
     kind = prng.choice(KINDS)
-    uni = _universe(prng, kind, n)
     length = prng.randrange(1, 61 if tier == "quick" else 121)
+    if prng.random() < 0.03:        # a size crossing some threshold (16, 32, 64, 128 ...) needs a large universe
+        n = prng.choice((17, 33, 65, 70, 129, 200))
+        kind = prng.choice(("int", "edge"))
+        length = prng.randrange(n, 3 * n)
+    uni = _universe(prng, kind, n)
     variant = "faults" if index % 3 == 0 else "clean"
     # swarm: per-run operation mix
     w = {"add": prng.choice((1, 3, 6)), "remove": prng.choice((1, 3, 6)), "remove_pos": prng.choice((0, 2, 4)),
